@@ -9,8 +9,8 @@ What happens (all under build.Lock('kani'), one Kani job at a time machine-wide;
      files keep the mtime of the original, so cargo rebuilds exactly what changed (cargo's freshness test is mtime based
      and rsync moves mtimes *backwards* when the tree is switched back to an older state - without this step a build of a
      previous tree could be reused silently);
-  4. build: `cargo kani --only-codegen` (no memory cap: rustc reserves a lot of address space), then the verification run
-     `cargo kani -j N --output-format terse --harness ...` under `ulimit -v` and `timeout`;
+  4. one invocation builds and verifies: `cargo kani -j N --output-format terse --harness ... --harness-timeout T` under
+     `ulimit -v` and `timeout` (if nothing gets verified the build is repeated without the cap to report the compile error);
   5. the output is parsed per harness.  Classification (never optimistic):
         success      = "VERIFICATION:- SUCCESSFUL", 0 failed checks, every cover property SATISFIED, no CBMC error/OOM/timeout text
         failure      = "VERIFICATION:- FAILED" + a concrete "Failed Checks:" line that is not an unwinding assertion,
@@ -274,22 +274,26 @@ def run_harnesses(crate, inject, harnesses, extra_args=(), timeout_s=900, mem_gb
         man, mpath, nstale = _freshen(src, tdir, inject)
         meta['stale_files'] = nstale
         base = _base_cmd(crate, harnesses, extra_args)
-        # ---- build (no address-space cap)
-        rc, out, dt = _run(base + ['--only-codegen'], src, timeout_s=1800, log=os.path.join(logdir, tag + '.build.log'))
-        meta['build_s'] = round(dt, 1)
-        if rc != 0 or re.search(r'^error(\[E\d+\])?: ', out, re.M):       # (stdout/stderr interleave, so do not look for the 'Finished' line)
-            errs = [l for l in out.splitlines() if l.startswith('error')]
-            raise build.BuildError('cargo kani --only-codegen failed for %s (exit %d): %s\n%s' % (crate, rc, ' | '.join(errs[:5]), out[-1500:]))
-        json.dump(man, open(mpath, 'w'))
-        meta['stubs'] = sorted(set(re.findall(r'- Stub: (.+)', out)))
-        # ---- verify
-        # timeout_s is per harness (Kani's own --harness-timeout); the outer `timeout` only guards the whole run
+        # ---- build + verify in ONE invocation (a separate `--only-codegen` pass costs ~1.6 s per harness twice: kani-driver
+        #      re-links every harness).  timeout_s is per harness (Kani's --harness-timeout); the outer `timeout` guards the run.
         cmd = base + ['-j', str(jobs), '--output-format', 'terse']
         if not any(a == '--harness-timeout' for a in extra_args): cmd += ['-Z', 'unstable-options', '--harness-timeout', '%ds' % int(timeout_s)]
         rounds = (len(harnesses) + jobs - 1) // jobs
-        rc, out, dt = _run(cmd, src, timeout_s=timeout_s * rounds + 120, mem_gb=mem_gb, log=os.path.join(logdir, tag + '.verify.log'))
+        rc, out, dt = _run(cmd, src, timeout_s=timeout_s * rounds + 600, mem_gb=mem_gb, log=os.path.join(logdir, tag + '.verify.log'))
+        meta['build_s'] = 0.0
+        if 'Checking harness' not in out:
+            # nothing was verified: compile error, or rustc itself hit the address-space cap.  Build again without the cap to tell which.
+            rc0, out0, dt0 = _run(base + ['--only-codegen'], src, timeout_s=1800, log=os.path.join(logdir, tag + '.build.log'))
+            meta['build_s'] = round(dt0, 1)
+            if rc0 != 0 or re.search(r'^error(\[E\d+\])?: ', out0, re.M):       # (stdout/stderr interleave, so do not look for the 'Finished' line)
+                errs = [l for l in out0.splitlines() if l.startswith('error')]
+                raise build.BuildError('cargo kani build failed for %s (exit %d): %s\n%s' % (crate, rc0, ' | '.join(errs[:5]), out0[-1500:]))
+            rc, out, dt = _run(cmd, src, timeout_s=timeout_s * rounds + 600, mem_gb=mem_gb, log=os.path.join(logdir, tag + '.verify.log'))
+        if 'Checking harness' in out: json.dump(man, open(mpath, 'w'))              # the target dir now reflects this tree
+        mb = re.search(r"Finished `dev` profile[^\n]* in ([0-9.]+)s", out)
+        if mb and not meta['build_s']: meta['build_s'] = float(mb.group(1))
         meta['verify_s'] = round(dt, 1); meta['verify_rc'] = rc
-        meta['stubs'] = sorted(set(meta['stubs']) | set(re.findall(r'- Stub: (.+)', out)))
+        meta['stubs'] = sorted(set(re.findall(r'- Stub: (.+)', out)))
         results = parse_output(out, harnesses)
         timed_out = rc in (124, 137)
         for h, r in results.items():
